@@ -159,6 +159,7 @@ impl Exec {
             }
         }
         let pre = std::mem::replace(&mut self.obs, Obs::placeholder());
+        let mut count_case = false;
         let out: StepOut = self.sim.apply(op);
         let post = self.sim.observe();
         match op {
@@ -180,14 +181,7 @@ impl Exec {
                     }
                     if prop.kinds.is_empty() || prop.kinds.contains(&a.act.kind()) {
                         self.stats.evaluations += 1;
-                        let sc = crate::monitor::state_class(&pre);
-                        let mut h = fnv1a(a.act.kind().as_bytes());
-                        h = fnv_mix(h, &sc.to_be_bytes());
-                        h = fnv_mix(h, &[out.ok as u8, fired as u8]);
-                        if let Some(d) = a.act.dep() {
-                            h = fnv_mix(h, d.path().as_bytes());
-                        }
-                        self.stats.distinct.insert(h);
+                        count_case = true;
                     }
                 }
             }
@@ -205,6 +199,9 @@ impl Exec {
             _ => {}
         }
         findings.extend(self.mon.step(&pre, op, action.as_ref(), &out, &post, &self.sim.names));
+        if count_case {
+            self.stats.distinct.insert(self.mon.last_case);
+        }
         self.obs = post;
         self.log_hash = fnv_mix(self.log_hash, op.short().as_bytes());
         self.log_hash = fnv_mix(self.log_hash, &[out.ok as u8]);
@@ -324,6 +321,9 @@ pub fn run_one(seed: u64, prop: &PropCfg, run: u64, known: &[KnownFinding]) -> R
     if exec.stats.samples.is_empty() {
         let shown: Vec<String> = res.ops.iter().filter(|o| !matches!(o, Op::Advance { .. })).take(14).map(|o| o.short()).collect();
         exec.stats.samples.push(format!("run {run} mode {:?}: {}", mode, shown.join(" ; ")));
+    }
+    for (k, v) in &g.counters {
+        *exec.stats.faults.entry(k).or_insert(0) += v;
     }
     res.stats = exec.stats.clone();
     res.reach = exec.mon.reach.clone();
